@@ -246,6 +246,7 @@ fn c07_map_delete_step() {
 #[kani::proof]
 #[kani::unwind(10)]
 #[kani::stub(hash_item, verif_hash_item)]
+#[kani::stub(<[u64]>::select_nth_unstable, crate::verif_kani_common::model_select_nth)]
 fn c07_map_purge() {
     init_home();
     let mut m = any_map();
